@@ -13,6 +13,7 @@ import Rtcp.Props.Compose
 import Rtcp.Props.Total
 import Rtcp.Props.Layout
 import Rtcp.Props.Setters
+import Rtcp.Props.Calls
 import Rtcp.Props.EndToEnd
 import Rtcp.Props.Fast
 import Rtcp.Props.Pins
